@@ -229,6 +229,10 @@ def statedb_predicates(cases, obs):
             if o["err"]:
                 fails.append(("statedb-proof-error", "GetAccountAndProof/GetVarAndProof failed: " + o["err"], rep))
                 continue
+            if o["kind"] == "contract":
+                if not (o["inclusion"] and o["verified"] and o["nonce"] == a[o["name"]]):
+                    fails.append(("statedb-contract-proof", "account proof of the contract (composition flow) not verified", rep))
+                continue
             if o["kind"] == "account":
                 exp = o["name"] in a
                 good = (not exp) or o["nonce"] == a[o["name"]]
@@ -379,7 +383,7 @@ def run(ctx):
                    "Import ListNotations.", "Open Scope N_scope.",
                    "Definition cases : list c11_case := [\n%s]." % ";\n".join(items),
                    "Definition M := Eval vm_compute in c11_mismatches cases.", "Print M."]
-            rc, _ = ctx.coq_make(["Trie/EvalProof.vo"])
+            rc, _ = tg.ensure_vo(ctx, ["Trie/ToyHash", "Trie/Eval", "Trie/EvalProof"])
             ok, idx, out = ctx.coq_eval_mismatches("c11_cases", "\n".join(txt), timeout=900)
             if not ok:
                 corr = corr or ("kernel-side proof evaluation failed: " + out[-800:], [])
